@@ -261,6 +261,38 @@ func cmdTagLang(f hx.Flags, r *hx.Result) {
 		checkOne(r, model, string(b), want, map[string]any{"name": string(b), "valid": want})
 	}
 	compareAll(r, model, "end of random strings")
+	// far beyond the length bound: otherwise well-formed names of lengths around every power of 256 (and a few in
+	// between) are invalid like every name longer than 36, directly and through the helpers
+	for _, L := range []int{37, 38, 40, 64, 100, 128, 200, 255, 256, 257, 258, 259, 260, 261, 270, 275, 290, 292, 293, 300,
+		511, 512, 515, 520, 530, 548, 549, 600, 768, 771, 800, 1027, 1030, 4099, 65535, 65536, 65539, 65545, 65560, 65572, 131075} {
+		for shape := 0; shape < 4; shape++ {
+			var name string
+			switch shape {
+			case 0: // one segment
+				name = strings.Repeat("a", L)
+			case 1: // leading underscore, two segments
+				name = "_ab_" + strings.Repeat("b", L-4)
+			case 2: // three segments
+				name = "ab_cd_" + strings.Repeat("e", L-6)
+			case 3: // four segments with digits
+				name = "_a1_b2_c3_" + strings.Repeat("4", L-10)
+			}
+			checkOne(r, model, name, false, map[string]any{"name_length": L, "shape": shape, "valid": false})
+		}
+		for _, h := range []func() *log.Tag{
+			func() *log.Tag { return log.RegisterAppTag(strings.Repeat("s", L-6), "ab") },
+			func() *log.Tag { return log.RegisterBizTag("ab", strings.Repeat("t", L-8)) },
+			func() *log.Tag { return log.RegisterRPCTag(strings.Repeat("u", L-5), "") },
+		} {
+			var t *log.Tag
+			p := hx.Catch(func() { t = h() })
+			r.Eval(1)
+			if p == nil && t != nil {
+				r.Violate("helper-accepted-invalid", map[string]any{"name_length": L}, "a helper built and registered a name of %d characters; the specification rejects every name longer than 36", L)
+			}
+		}
+	}
+	compareAll(r, model, "end of long names")
 	r.NonTrivial(int64(len(nontrivial)))
 	log.VerifReset()
 }
